@@ -12,7 +12,7 @@ use chumsky::span::SimpleSpan;
 
 pub const ID: &str = "C06";
 
-pub const RULE: &str = "cases = (grammar, input) where the parse FAILS. Strict class: C01/C02-class grammars without not / labels / map_err / recovery / memoization, in which filter / try_map / try_map_with / custom wrap only choice-free, repetition-free sub-parsers (so the position of every failure event is unambiguous). General class: arbitrary nesting of filter/try_map. Grammars containing `not` are excluded, as the property's quantifier says. Tiers: bounded-exhaustive (small grammars incl. repetitions x all strings over {a,b,c} up to length L) and random (tapes; 60% derived sentences with edits, 40% random strings; 1..4-byte characters). Oracle = the never-rolled-back failure-event log of the reference: P = furthest event position; the last reported Rich error must start at offset(P) (never earlier, never later); if a user-supplied error (try_map / custom) is among the events at P it is the reported one, otherwise expected() == union of the expectations of all events at P (as a set); span inside the input, start <= end, on char boundaries; found == the token at span.start, None iff span.start == input length; Cheap, Simple and Rich report the same span and Simple::found == Rich::found; EmptyErr reports exactly one error. In the general class the content comparison is applied only when no failure event lies inside a rejected semantic node (positions unspecified there); the span/found well-formedness and the cross-error-type agreement always apply. NON-TRIVIAL = at least two failure events from different attempts contributed and either an earlier, further one was kept over a later attempt, or a later one replaced an earlier one, or >= 2 with different expectations merged at the furthest position, or a user error sits at the furthest position; distinct = distinct (sub-check, grammar, input).";
+pub const RULE: &str = "cases = (grammar, input) where the parse FAILS. Strict class: C01/C02-class grammars without not / labels / map_err / recovery / memoization, in which filter / try_map / try_map_with / custom wrap only choice-free, repetition-free sub-parsers (so the position of every failure event is unambiguous). General class: arbitrary nesting of filter/try_map. Grammars containing `not` are excluded, as the property's quantifier says. Tiers: bounded-exhaustive (small grammars incl. repetitions x all strings over {a,b,c} up to length L) and random (tapes; 60% derived sentences with edits, 40% random strings; 1..4-byte characters). Oracle = the never-rolled-back failure-event log of the reference: P = furthest event position; the last reported Rich error must start at offset(P) (never earlier, never later); if a user-supplied error (try_map / custom) is among the events at P it is the reported one, otherwise expected() == union of the expectations of all events at P (as a set); span inside the input, start <= end, on char boundaries; found == the token at span.start, None iff span.start == input length; Cheap, Simple and Rich report the same span and Simple::found == Rich::found; EmptyErr reports exactly one error. In the general class the content comparison is applied only when no failure event lies inside a rejected semantic node (positions unspecified there); the span/found well-formedness and the cross-error-type agreement always apply. One random case in sixteen (strict and general classes) also runs on every other input representation, incl. gapped token-span inputs (error spans well-formed and at the same tokens). NON-TRIVIAL = at least two failure events from different attempts contributed and either an earlier, further one was kept over a later attempt, or a later one replaced an earlier one, or >= 2 with different expectations merged at the furthest position, or a user error sits at the furthest position; distinct = distinct (sub-check, grammar, input).";
 
 pub const ASSUMPTIONS: &[&str] = &[
     "the reference failure-event log (harness/src/reference.rs): every primitive mismatch is an event at the offending token, every semantic rejection an event at the start of the rejected match; events are never rolled back; furthest wins, equal positions merge, a user-supplied error at the furthest position is preserved (first one wins)",
